@@ -212,16 +212,38 @@ theorem writeSingleSegment_opts (cx : Ctx) (hesc : cx.esc = escapePath) (o' : Op
   simp only [emitSection_opts cx hesc o' seg hb hs.2.1 hs.2.2.2, gpLine_opts cx o' seg _ hs.2.2.1]
   rfl
 
+theorem filter_congrP {α} (l : List α) (f g : α → Bool) (h : ∀ x ∈ l, f x = g x) : l.filter f = l.filter g := by
+  induction l with
+  | nil => rfl
+  | cons a as ih =>
+    simp only [List.filter_cons, h a List.mem_cons_self, ih (fun x hx => h x (List.mem_cons_of_mem _ hx))]
+
+/-- which followed classes are in use reads the options only through the conditions of the
+document's segments. -/
+theorem classPart_opts (cx : Ctx) (o' : Opts)
+    (hall : ∀ s ∈ cx.d.segments, shouldEmit cx.o s.cond = shouldEmit o' s.cond) (em : List Str) (seg : Segment) :
+    classPart { cx with o := o' } em seg = classPart cx em seg := by
+  have hf : ∀ vc, followedUsed { cx with o := o' } vc = followedUsed cx vc := by
+    intro vc
+    unfold followedUsed
+    apply filter_congrP
+    intro other _
+    exact any_congrP _ _ _ (fun s hs => by simp only [hall s hs])
+  unfold classPart classIntro
+  simp only [hf]
+
 theorem addSegment_opts (cx : Ctx) (hesc : cx.esc = escapePath) (o' : Opts) (seg : Segment)
     (hb : escapePath cx.o cx.d.settings.basePath = escapePath o' cx.d.settings.basePath)
+    (hall : ∀ s ∈ cx.d.segments, shouldEmit cx.o s.cond = shouldEmit o' s.cond)
     (hs : SegOk cx.o o' seg) (em : List Str) :
     addSegment { cx with o := o' } em seg = addSegment cx em seg := by
   unfold addSegment
-  simp only [writeSegment_opts cx hesc o' seg hb hs, ← hs.1]
+  simp only [writeSegment_opts cx hesc o' seg hb hs, ← hs.1, classPart_opts cx o' hall]
   rfl
 
 theorem addSegments_opts (cx : Ctx) (hesc : cx.esc = escapePath) (o' : Opts)
-    (hb : escapePath cx.o cx.d.settings.basePath = escapePath o' cx.d.settings.basePath) :
+    (hb : escapePath cx.o cx.d.settings.basePath = escapePath o' cx.d.settings.basePath)
+    (hall : ∀ s ∈ cx.d.segments, shouldEmit cx.o s.cond = shouldEmit o' s.cond) :
     ∀ (l : List Segment), (∀ s ∈ l, SegOk cx.o o' s) → ∀ em,
       addSegments { cx with o := o' } em l = addSegments cx em l := by
   intro l
@@ -230,7 +252,7 @@ theorem addSegments_opts (cx : Ctx) (hesc : cx.esc = escapePath) (o' : Opts)
   | cons a as ih =>
     intro h em
     unfold addSegments
-    rw [addSegment_opts cx hesc o' a hb (h a List.mem_cons_self) em]
+    rw [addSegment_opts cx hesc o' a hb hall (h a List.mem_cons_self) em]
     simp only [ih (fun s hs => h s (List.mem_cons_of_mem _ hs))]
 
 theorem addSingleSegment_opts (cx : Ctx) (hesc : cx.esc = escapePath) (o' : Opts) (seg : Segment)
@@ -246,7 +268,7 @@ theorem addAllSegments_opts (cx : Ctx) (hesc : cx.esc = escapePath) (o' : Opts)
     (hs : ∀ s ∈ cx.d.segments, SegOk cx.o o' s) :
     addAllSegments { cx with o := o' } = addAllSegments cx := by
   unfold addAllSegments
-  simp only [addSegments_opts cx hesc o' hb _ hs]
+  simp only [addSegments_opts cx hesc o' hb (fun s h => (hs s h).1) _ hs]
   split
   · split
     · rename_i seg heq
@@ -269,12 +291,6 @@ def DocOk (o o' : Opts) (d : Document) : Prop :=
   (∀ a ∈ d.symbolAssignments, shouldEmit o a.cond = shouldEmit o' a.cond) ∧
   (∀ a ∈ d.requiredSymbols, shouldEmit o a.cond = shouldEmit o' a.cond) ∧
   (∀ a ∈ d.asserts, shouldEmit o a.cond = shouldEmit o' a.cond)
-
-theorem filter_congrP {α} (l : List α) (f g : α → Bool) (h : ∀ x ∈ l, f x = g x) : l.filter f = l.filter g := by
-  induction l with
-  | nil => rfl
-  | cons a as ih =>
-    simp only [List.filter_cons, h a List.mem_cons_self, ih (fun x hx => h x (List.mem_cons_of_mem _ hx))]
 
 theorem topLevel_opts (d : Document) (o o' : Opts) (h : DocOk o o' d) : topLevel d o' = topLevel d o := by
   unfold topLevel
@@ -301,7 +317,8 @@ theorem partialSegment_ok (o o' : Opts) (folder : Str) (seg : Segment) (hs : Seg
   rfl
 
 theorem partialSegments_opts (d : Document) (o o' : Opts) (vc : Bool) (folder : Str)
-    (hb : escapePath o d.settings.basePath = escapePath o' d.settings.basePath) :
+    (hb : escapePath o d.settings.basePath = escapePath o' d.settings.basePath)
+    (hall : ∀ s ∈ d.segments, shouldEmit o s.cond = shouldEmit o' s.cond) :
     ∀ (l : List Segment), (∀ s ∈ l, SegOk o o' s ∧
         escapePath o (pathPush folder (s.name ++ c!".o")) = escapePath o' (pathPush folder (s.name ++ c!".o"))) → ∀ em,
       partialSegments d o' vc folder escapePath em l = partialSegments d o vc folder escapePath em l := by
@@ -317,7 +334,7 @@ theorem partialSegments_opts (d : Document) (o o' : Opts) (vc : Bool) (folder : 
     have h2 : ∀ em, addSegment { d := d, o := o', refPartial := true, esc := escapePath } em (partialSegment folder a)
         = addSegment { d := d, o := o, refPartial := true, esc := escapePath } em (partialSegment folder a) := by
       intro em
-      exact addSegment_opts { d := d, o := o, refPartial := true, esc := escapePath } rfl o' _ hb (partialSegment_ok o o' folder a hs hp) em
+      exact addSegment_opts { d := d, o := o, refPartial := true, esc := escapePath } rfl o' _ hb hall (partialSegment_ok o o' folder a hs hp) em
     simp only [h1, h2, ← hs.1, ih (fun s hs' => h s (List.mem_cons_of_mem _ hs'))]
 
 theorem generatePartial_opts (d : Document) (o o' : Opts) (h : DocOk o o' d) (vc : Bool) :
@@ -327,7 +344,7 @@ theorem generatePartial_opts (d : Document) (o o' : Opts) (h : DocOk o o' d) (vc
   | none => rfl
   | some folder =>
     simp only []
-    rw [partialSegments_opts d o o' vc folder h.1 d.segments (fun s hs => ⟨h.2.2.1 s hs, h.2.2.2.1 folder hf s hs⟩) [],
+    rw [partialSegments_opts d o o' vc folder h.1 (fun s hs => (h.2.2.1 s hs).1) d.segments (fun s hs => ⟨h.2.2.1 s hs, h.2.2.2.1 folder hf s hs⟩) [],
       topLevel_opts d o o' h]
     rfl
 
